@@ -19,7 +19,9 @@ loads to a complete object written by an earlier successful save"):
   complete_new      load(target) is deq-equal to the complete new object (fault after the last write).
 Anything else that loads is ``partial_target_loadable``.  With mode='w' and an existing target the call
 must raise (FileExistsError unless our fault fired first) and the target's tree hash must not change.
-Every call, failed or not, must leave every path other than the target unchanged.
+Every call, failed or not, must leave every path other than the target unchanged.  The *target* is what
+save() finally writes (``<path>.zip`` when store='zip' is given with an extension-less path), not the path as
+typed; the typed-path cases keep entries at both spellings and judge successful saves as well.
 """
 from __future__ import annotations
 
@@ -35,9 +37,13 @@ ANCHOR_FILES = ["quantem/core/io/serialize.py"]
 RULE = (
     "graph family (flat, nested, torch members, containers of objects, many small attributes, arrays; thorough: + seeded random graphs) x store "
     "{zip,dir} x (mode, pre-existing target) in {(w,none),(o,none),(o,complete object of another class),(o,garbage file),(o,garbage dir)} x "
-    "fault position: line faults k = 1..K of the save (quick: every 7th k with a per-configuration offset; thorough: every k), I/O-call "
-    "faults j = 1..J for each of 12 primitives (quick: all j for (w,none) and (o,complete), every 4th otherwise; thorough: all), natural "
-    "failures (3 un-storable kinds x 5 positions), and mode='w' onto each kind of existing target with every k up to the FileExistsError. "
+    "fault position x exception class {InjectedFault/OSError (Exception), InjectedAbort/KeyboardInterrupt/SystemExit (BaseException only)}: line faults "
+    "k = 1..K of the save (quick: every 7th k for Exception-class and every 21st for BaseException-class faults, per-configuration offset; thorough: "
+    "every k for both), I/O-call faults j = 1..J for each of 11 primitives (quick: all j for (w,none) and (o,complete), every 4th otherwise, "
+    "BaseException-class every 3rd on the write primitives; thorough: all for both), natural failures (3 un-storable kinds x 5 positions), mode='w' "
+    "onto each kind of existing target with every k up to the FileExistsError, and typed-path cases: store='zip' with an extension-less path / "
+    "store='auto' x mode x pre-existing real target x an unrelated file or complete object of the other store at the other spelling of the name, "
+    "judged on the fault-free save and on sampled line faults. "
     "One case = one residue class of fault positions of one configuration (K/J are discovered by injecting until the save completes). "
     "non-trivial = a fault fired after >=1 store write and before the last one; distinct = (graph, store, mode, pre, fault class, residue)"
 )
@@ -50,7 +56,8 @@ ASSUMPTIONS = [
 ]
 BUDGET = {"quick": {"soft_s": 75}, "thorough": {"soft_s": 540}}
 MIN_EVALUATIONS = {"quick": 250, "thorough": 1000}
-REQUIRED_COUNTERS = ["eval:target_state_after_failed_save", "eval:other_paths_unchanged", "eval:write_once_target_unchanged", "injected:line", "injected:io", "injected:natural"]
+REQUIRED_COUNTERS = ["eval:target_state_after_failed_save", "eval:other_paths_unchanged", "eval:write_once_target_unchanged", "injected:line", "injected:io", "injected:natural",
+                     "injected:base_exception", "typed_path_fault_free_saves"]
 # thorough: every k and every j of every configuration of the graphs used (see plan); a time-budget skip clears the flag in the driver
 EXHAUSTIVE = {"quick": False, "thorough": True}
 
@@ -64,7 +71,11 @@ IO_LABELS = {
 BUSY_LABELS = ("Attributes.__setitem__", "ZipFile.write")
 BAD_KINDS = ["object_array", "generator", "unpicklable"]
 BAD_POSITIONS = ["first", "middle", "last", "nested", "in_list"]
-N_GRAPHS = {"quick": 6, "thorough": 9}
+N_GRAPHS = {"quick": 6, "thorough": 7}
+TYPED_GRAPHS = {"quick": 1, "thorough": 3}
+# variant -> (real store, store argument, typed name); the real target is always target.zip (zip) / target (dir)
+TYPED_VARIANTS = {"zip_noext": ("zip", "zip", "target"), "auto_zip": ("zip", "auto", "target.zip"), "auto_dir": ("dir", "auto", "target")}
+BASE_EXCS = ["abort", "keyboard", "exit"]  # InjectedAbort(BaseException), KeyboardInterrupt, SystemExit
 WRITE_LABELS = ("Group.create_array", "Group.require_group", "Attributes.__setitem__", "Array.__setitem__", "ZipFile.write")
 
 
@@ -81,23 +92,40 @@ def plan(tier, seed):
         for store in STORES:
             for pre in WRITE_ONCE_PRE:
                 specs.append({"fault": "write_once", "graph": gi, "store": store, "mode": "w", "pre": pre, "_must_run": True})
-    stride = 7 if tier == "quick" else 1
-    nres = 3 if tier == "quick" else 12
+    # the path as typed differs from the real target (store='zip' without extension) or the store is inferred (store='auto'):
+    # fault-free saves and a sample of line faults, with entries at both spellings of the name
+    tstride = 23 if tier == "quick" else 3
+    ti = 0
+    for gi in range(TYPED_GRAPHS[tier]):
+        for variant in TYPED_VARIANTS:
+            for mode in ("w", "o"):
+                for pre in ("none", "complete", "garbage_file", "garbage_dir"):
+                    for sib in (("none", "file", "object") if variant == "zip_noext" else ("default", "object")):
+                        ti += 1
+                        specs.append({"fault": "typed", "graph": gi, "variant": variant, "store": TYPED_VARIANTS[variant][0], "mode": mode, "pre": pre, "sibling": sib,
+                                      "stride": tstride, "offset": (ti + seed) % tstride, "residue": 0, "nres": 1, "exc": "exception" if ti % 3 else "base", "_must_run": tier == "quick"})
     ci = 0
     for gi in range(ng):
         for store in STORES:
             for mode, pre in CONFIGS:
                 ci += 1
-                for r in range(nres):
-                    specs.append({"fault": "line", "graph": gi, "store": store, "mode": mode, "pre": pre, "stride": stride, "offset": (ci + seed) % stride, "residue": r, "nres": nres})
-                for label in IO_LABELS[store]:
-                    if label in ("shutil.rmtree", "os.remove") and pre == "none":
-                        continue  # never called without an existing target (on the repaired tree only by the clean-up, after the fault)
-                    full = tier == "thorough" or (mode, pre) in (("w", "none"), ("o", "complete"))
-                    st = 1 if full else 4
-                    nr = 2 if (label in BUSY_LABELS and st == 1) else 1
+                two = (mode, pre) in (("w", "none"), ("o", "complete"))
+                for exc in ("exception", "base"):
+                    # quick: Exception-class faults at every 7th k, BaseException-class faults at every 21st; thorough: every k for both
+                    stride = (7 if exc == "exception" else 21) if tier == "quick" else 1
+                    nres = (3 if exc == "exception" else 1) if tier == "quick" else 12
+                    for r in range(nres):
+                        specs.append({"fault": "line", "exc": exc, "graph": gi, "store": store, "mode": mode, "pre": pre, "stride": stride, "offset": (ci + seed) % stride, "residue": r, "nres": nres})
+                    # I/O-call faults: all (primitive, j) pairs of the configuration, J per primitive read off a fault-free dry run
+                    if tier == "quick":
+                        if exc == "base" and not two:
+                            continue
+                        st = (1 if two else 4) if exc == "exception" else 3
+                        nr = 3 if st == 1 else 1
+                    else:
+                        st, nr = 1, 4
                     for r in range(nr):
-                        specs.append({"fault": "io", "label": label, "graph": gi, "store": store, "mode": mode, "pre": pre, "stride": st, "offset": (ci + seed) % st, "residue": r, "nres": nr})
+                        specs.append({"fault": "io", "exc": exc, "labels": IO_LABELS[store], "graph": gi, "store": store, "mode": mode, "pre": pre, "stride": st, "offset": (ci + seed) % st, "residue": r, "nres": nr})
     return specs
 
 
@@ -225,7 +253,7 @@ def _place_pre(ctx, store, pre, target):
 class Sandbox:
     """base/sb holds the target and its siblings, base/stage is tempfile.tempdir while the case runs."""
 
-    def __init__(self, ctx, idx, store):
+    def __init__(self, ctx, idx, store, sibling="default"):
         self.base = os.path.join(ctx.tmp, "c08", "case%d" % idx)
         shutil.rmtree(self.base, ignore_errors=True)
         self.sb = os.path.join(self.base, "sb")
@@ -242,13 +270,25 @@ class Sandbox:
         with open(self.target + ".bak", "w") as f:
             f.write("backup")
         other = os.path.join(self.sb, "target" if store == "zip" else "target.zip")  # the other store's spelling of the name
-        if store == "zip":
-            os.makedirs(other)
-            with open(os.path.join(other, "zarr.json"), "w") as f:
-                f.write("{}")
-        else:
+        self.other = other
+        if sibling == "default":
+            if store == "zip":
+                os.makedirs(other)
+                with open(os.path.join(other, "zarr.json"), "w") as f:
+                    f.write("{}")
+            else:
+                with open(other, "wb") as f:
+                    f.write(b"PK not really")
+        elif sibling == "file":
             with open(other, "wb") as f:
-                f.write(b"PK not really")
+                f.write(b"an unrelated file that happens to share the base name")
+        elif sibling == "object":
+            # a complete object saved with the *other* store under the same base name
+            src = _template(ctx, "dir" if store == "zip" else "zip", "complete")
+            if os.path.isdir(src):
+                shutil.copytree(src, other)
+            else:
+                shutil.copy2(src, other)
         self._old_tmp = tempfile.tempdir
         tempfile.tempdir = self.stage
 
@@ -305,8 +345,9 @@ def _phase(fired_fn):
     return fn
 
 
-def attempt(ctx, sbx, g, gkey, store, mode, pre, arm, fault_class, fields):
-    """run one save() under an armed fault and judge the state it leaves.  Returns a small record."""
+def attempt(ctx, sbx, g, gkey, store, mode, pre, arm, fault_class, fields, save_path=None, store_arg=None):
+    """run one save() under an armed fault and judge the state it leaves.  Returns a small record.
+    save_path / store_arg: what is passed to save() when that differs from the real target / real store."""
     lf, cf, dq, load = ctx.state["lf"], ctx.state["cf"], ctx.state["deq"], ctx.state["load"]
     target = sbx.target
     _place_pre(ctx, store, pre, target)
@@ -315,18 +356,18 @@ def attempt(ctx, sbx, g, gkey, store, mode, pre, arm, fault_class, fields):
     arm()
     raised = None
     try:
-        g.save(target, mode=mode, store=store)
+        g.save(target if save_path is None else save_path, mode=mode, store=store if store_arg is None else store_arg)
     except BaseException as e:  # noqa: BLE001
-        if isinstance(e, (KeyboardInterrupt, SystemExit)):
-            raise
         raised = e
     finally:
         n_lines = lf.disarm()
         counts = cf.disarm()
     fired = lf.fired or cf.fired
+    if raised is not None and isinstance(raised, (KeyboardInterrupt, SystemExit)) and not fired:
+        raise raised  # a real interrupt, not one of ours
     fired_fn = lf.fired[1] if lf.fired else (cf.fired[0] if cf.fired else None)
     writes_before = sum(counts.get(w, 0) for w in WRITE_LABELS) - (1 if cf.fired and cf.fired[0] in WRITE_LABELS else 0)
-    rec = {"fired": bool(fired), "raised": type(raised).__name__ if raised is not None else None, "lines": n_lines, "writes": writes_before, "outcome": None, "fired_fn": fired_fn}
+    rec = {"fired": bool(fired), "raised": type(raised).__name__ if raised is not None else None, "lines": n_lines, "writes": writes_before, "outcome": None, "fired_fn": fired_fn, "counts": counts}
     f = dict(fields, store=store, mode=mode, pre=pre, fault_class=fault_class, phase=_phase(lf.fired[1]) if lf.fired else (cf.fired[0] if cf.fired else ("natural" if raised is not None else "none")))
     if fired_fn:
         ff = ctx.state["evidence_extra"]["fired_functions"]
@@ -430,38 +471,61 @@ def run_case(spec, idx, ctx):
     else:
         g = _graph(ctx, spec["graph"])
         gkey = (spec["graph"], store)
-    sbx = Sandbox(ctx, idx, store)
+    sbx = Sandbox(ctx, idx, store, sibling=spec.get("sibling", "default"))
     outcomes = {}
     recs = []
-    fields = {"graph": spec.get("graph", "bad_member")}
+    exc = spec.get("exc", "exception")
+    fields = {"graph": spec.get("graph", "bad_member"), "exc_class": exc}
+
+    def excname(n):
+        return "exception" if exc == "exception" else BASE_EXCS[n % len(BASE_EXCS)]
+
+    kw = {}
+    if fault == "typed":
+        _, store_arg, typed_name = TYPED_VARIANTS[spec["variant"]]
+        kw = {"save_path": os.path.join(sbx.sb, typed_name), "store_arg": store_arg}
+        fields.update(variant=spec["variant"], sibling=spec["sibling"])
     try:
-        if fault == "line":
+        if fault in ("line", "typed"):
             i = 0
             while True:
                 k = 1 + spec["offset"] + spec["stride"] * (spec["residue"] + spec["nres"] * i)
-                rec = attempt(ctx, sbx, g, gkey, store, mode, pre, lambda: (lf.arm(k), cf.arm()), "line", fields)
+                rec = attempt(ctx, sbx, g, gkey, store, mode, pre, lambda: (lf.arm(k, excname(k)), cf.arm()), "line", fields, **kw)
                 recs.append(rec)
                 if not rec["fired"]:
-                    ctx.state["evidence_extra"]["K"]["g%s/%s/%s/%s" % (spec["graph"], store, mode, pre)] = rec["lines"]
+                    if fault == "line":
+                        ctx.state["evidence_extra"]["K"]["g%s/%s/%s/%s" % (spec["graph"], store, mode, pre)] = rec["lines"]
+                    else:
+                        ctx.count("typed_path_fault_free_saves")
                     break
                 ctx.count("injected:line")
+                if exc != "exception":
+                    ctx.count("injected:base_exception")
                 i += 1
                 if i > 4000:
                     raise_harness("line-fault enumeration did not terminate")
         elif fault == "io":
-            i = 0
-            label = spec["label"]
-            while True:
-                j = 1 + spec["offset"] + spec["stride"] * (spec["residue"] + spec["nres"] * i)
-                rec = attempt(ctx, sbx, g, gkey, store, mode, pre, lambda: (lf.arm(None), cf.arm(label, j)), "io", dict(fields, label=label))
+            # fault-free dry run (judged like any completed save): calls per primitive = J
+            dry = attempt(ctx, sbx, g, gkey, store, mode, pre, lambda: (lf.arm(None), cf.arm()), "io", fields)
+            recs.append(dry)
+            if dry["raised"] is not None and not (mode == "w" and pre != "none"):
+                raise_harness("fault-free dry run of graph %s raised %s" % (spec["graph"], dry["raised"]))
+            J = dry["counts"]
+            ctx.state["evidence_extra"]["J"]["g%s/%s/%s/%s" % (spec["graph"], store, mode, pre)] = {k: J.get(k, 0) for k in spec["labels"]}
+            flat = [(label, jj) for label in spec["labels"] for jj in range(1, J.get(label, 0) + 1)]
+            pos = spec["offset"] + spec["stride"] * spec["residue"]
+            while pos < len(flat):
+                label, jj = flat[pos]
+                rec = attempt(ctx, sbx, g, gkey, store, mode, pre, lambda: (lf.arm(None), cf.arm(label, jj, None if exc == "exception" else excname(pos))), "io", dict(fields, label=label))
                 recs.append(rec)
-                if not rec["fired"]:
-                    break
-                ctx.count("injected:io")
-                ctx.count("injected:io:" + label)
-                i += 1
-                if i > 4000:
-                    raise_harness("I/O-fault enumeration did not terminate")
+                if rec["fired"]:
+                    ctx.count("injected:io")
+                    ctx.count("injected:io:" + label)
+                    if exc != "exception":
+                        ctx.count("injected:base_exception")
+                else:
+                    ctx.count("io_fault_not_reached")
+                pos += spec["stride"] * spec["nres"]
         elif fault == "write_once":
             k = 0
             while True:
@@ -488,7 +552,7 @@ def run_case(spec, idx, ctx):
         ctx.count("outcome:%s" % r["outcome"])
     total_writes = max((r["writes"] for r in recs if not r["fired"] and r["raised"] is None), default=None)
     mid = [r for r in recs if (r["fired"] or fault == "natural") and r["raised"] is not None and r["writes"] >= 1 and (total_writes is None or r["writes"] < total_writes)]
-    sig = "%s|%s|%s|%s|%s|%s|%s" % (spec.get("graph", spec.get("bad")), store, mode, pre, fault, spec.get("label", spec.get("position", "")), spec.get("residue", 0))
+    sig = "%s|%s|%s|%s|%s|%s|%s|%s|%s" % (spec.get("graph", spec.get("bad")), store, mode, pre, fault, spec.get("position", ""), spec.get("residue", 0), exc, spec.get("variant", "") + spec.get("sibling", ""))
     ctx.nontrivial(sig, bool(mid))
     ctx.observe(injections=sum(1 for r in recs if r["fired"] or (fault == "natural" and r["raised"])), outcomes=outcomes, mid_write_faults=len(mid), writes_of_complete_save=total_writes,
                 lines_of_complete_save=next((r["lines"] for r in recs if not r["fired"] and r["raised"] is None), None), fired_in=sorted(set(r["fired_fn"] for r in recs if r["fired_fn"]))[:8])
@@ -510,6 +574,8 @@ def summarize(all_cases, counters, extras):
     return {
         "injections": inj,
         "injections_by_class": {k: counters.get("injected:" + k, 0) for k in ("line", "io", "natural")},
+        "injections_raising_a_non_Exception_BaseException": counters.get("injected:base_exception", 0),
+        "fault_free_saves_with_typed_path_or_auto_store": counters.get("typed_path_fault_free_saves", 0),
         "io_faults_by_primitive": {k[len("injected:io:"):]: v for k, v in sorted(counters.items()) if k.startswith("injected:io:")},
         "outcomes_after_failed_or_faulted_save": {k[len("outcome:"):]: v for k, v in sorted(counters.items()) if k.startswith("outcome:")},
         "line_events_of_a_complete_save_K": K,
